@@ -129,18 +129,14 @@ theorem C17_compute_complete (a b : Obj) (hb : b.shape.length = b.pardim)
     reflexive (identity), symmetric (inverse orientation; `matches(…, reverse)` is symmetric),
     transitive (product orientation, flags combine by xor) — on well-formed objects (`Obj.Good`:
     as many array axes as bases, flat data of the right size, positive extents, non-constant knot
-    vectors).
-
-    PARTIAL: symmetry and transitivity are proved for objects of EQUAL rationality flag.  Missing:
-    the mixed case (one object rational, the other not), where `compute` normalises the weights by
-    a sum that depends on the pair; it needs the invariance of `Σ w` under axis permutation and
-    reversal of the net, which is not proved here. -/
-theorem C17_equiv_partial :
+    vectors), rational, non-rational or mixed.  (The mixed case rests on `mapArray_data_perm`:
+    `map_array` by a well-formed orientation permutes the entries, so the weight sum by which
+    `compute` normalises is invariant.) -/
+theorem C17_equiv :
     (∀ a : Obj, a.Good → Equiv a a) ∧
-    (∀ a b : Obj, a.Good → b.Good → a.rational = b.rational → Equiv a b → Equiv b a) ∧
-    (∀ a b c : Obj, a.Good → b.Good → c.Good → a.rational = b.rational → b.rational = c.rational →
-      Equiv a b → Equiv b c → Equiv a c) :=
-  ⟨fun _ => Equiv.refl', fun _ _ => Equiv.symm', fun _ _ _ => Equiv.trans'⟩
+    (∀ a b : Obj, a.Good → b.Good → Equiv a b → Equiv b a) ∧
+    (∀ a b c : Obj, a.Good → b.Good → c.Good → Equiv a b → Equiv b c → Equiv a c) :=
+  ⟨fun _ => Equiv.refl', fun _ _ => Equiv.symm_full, fun _ _ _ => Equiv.trans_full⟩
 
 /-- `Obj.Good` is satisfiable (a straight segment). -/
 example : ∃ x : Obj, x.Good :=
@@ -159,23 +155,16 @@ theorem C17_vertex_canonical (m m1 : Model) (obj obj' : Obj) (id : ℕ) (o : Ori
     ∃ m2, m1.lookupPoint obj' add = .ok (m2, id, Orientation.identity 0) ∧ m2.verts = m1.verts :=
   Model.lookupPoint_after_add m m1 obj obj' id o hkey h add
 
-/-- **Catalogue, one level, any state (partial).**  After `ObjectCatalogue._add(obj, lower)`
-    in ANY model state, the tail of `lookup` (`Model.resolve`: candidate scan, twins policy)
-    run for any object `obj'` that `Orientation.compute` matches to `obj` (e.g. any re-oriented
-    copy), arriving with ANY permutation `lower'` of the stored codimension-1 nodes, returns the
-    SAME node (the id just created) together with the orientation `compute obj obj'` — the
-    node is filed under every permutation of its facet nodes (`set(permutations(…))`) and found
-    again under each of them.  Twins filed earlier under the same key must not match `obj'`
-    and must be tolerated by the twins policy.
-
-    MISSING for the full `C17_catalogue_canonical`: the induction over dimension and over the
-    insertion list showing that the recursive lower-level lookups of a re-oriented copy return a
-    permutation of the stored facet nodes (equivalent sections have equivalent, hence by induction
-    identical, facet nodes) and leave the state unchanged, the invariant that a key is present
-    with all its permutations or not at all, and the counting consequences (#nodes = #cells,
-    `higher_nodes`, `boundary()`), which are covered by the correspondence run and the
-    combinatorial oracle only. -/
-theorem C17_catalogue_canonical_partial (m : Model) (obj obj' : Obj) (lower lower' : List (List ℕ))
+/-- **Catalogue, one level, any state** (the single add/resolve step used by the induction; no
+    well-formedness hypotheses).  After `ObjectCatalogue._add(obj, lower)` in ANY model state, the
+    tail of `lookup` (`Model.resolve`: candidate scan, twins policy) run for any object `obj'` that
+    `Orientation.compute` matches to `obj` (e.g. any re-oriented copy), arriving with ANY
+    permutation `lower'` of the stored codimension-1 nodes, returns the SAME node (the id just
+    created) together with the orientation `compute obj obj'` — the node is filed under every
+    permutation of its facet nodes (`set(permutations(…))`) and found again under each of them.
+    Twins filed earlier under the same key must not match `obj'` and must be tolerated by the
+    twins policy.  The full statement is `C17_catalogue_canonical`. -/
+theorem C17_catalogue_step (m : Model) (obj obj' : Obj) (lower lower' : List (List ℕ))
     (o : Orientation) (add : Bool) (twins : List ℕ)
     (hpd : obj.pardim < m.levels.size) (hpd' : obj'.pardim = obj.pardim)
     (hperm : (lower'.getLastD []).Perm (lower.getLastD []))
@@ -190,7 +179,7 @@ theorem C17_catalogue_canonical_partial (m : Model) (obj obj' : Obj) (lower lowe
   ⟨(Model.addNode_spec m obj lower hpd).1,
    Model.resolve_after_addNode m obj obj' lower lower' o add twins hpd hpd' hperm hc hsize hold htw⟩
 
-/-- hypotheses of `C17_catalogue_canonical_partial` are satisfiable: an empty 1-D catalogue, a
+/-- hypotheses of `C17_catalogue_step` are satisfiable: an empty 1-D catalogue, a
     unit segment added, its reversed copy looked up. -/
 example : ∃ (m : Model) (obj obj' : Obj) (o : Orientation),
     obj.pardim < m.levels.size ∧ obj'.pardim = obj.pardim ∧ Orientation.compute obj obj' = .ok o ∧
@@ -232,9 +221,10 @@ theorem C17_twins_and_handedness :
 
 /-! ## The catalogue induction
 
-Universe: `GU nc` = well-formed NON-RATIONAL array objects with `nc` components per control point
-and parametric dimension ≤ 3 (`Lemmas/C17Sections.lean`).  Entity identity is `Equiv`
-(`Orientation.compute` does not raise), an equivalence relation on `GU` (`C17_equiv_partial`) that is
+Universe: `GU D` = well-formed array objects of physical dimension `D` — `D` components per control
+point plus a POSITIVE weight when rational; rational and non-rational objects may be mixed — and
+parametric dimension ≤ 3 (`Lemmas/C17Sections.lean`).  Entity identity is `Equiv`
+(`Orientation.compute` does not raise), an equivalence relation on `GU` (`C17_equiv`) that is
 compatible with sections (`sect_equiv`: if `o = compute a b` then `b.section(s) ≈
 a.section(o.map_section(s))`, through `o.view_section(s)`).  The cells of the complex spanned by a
 list of patches are the patches and their iterated proper sections (`Cell`).
@@ -266,7 +256,7 @@ theorem C17_catalogue_invariant {nc : ℕ} {S : Obj → Prop}
   obtain ⟨a, b, c⟩ := addAll_sound hsect sm.pardim tw objs sm.cat sm'.cat hI hL hobjs hfold
   exact ⟨a, b, hp, c⟩
 
-/-- **`C17_catalogue_canonical`** (non-rational patches, parametric dimension ≤ 3).
+/-- **`C17_catalogue_canonical`** (rational or not, parametric dimension ≤ 3).
     Let a fresh `SplineModel(P, D, force_right_hand)` receive ANY list of patches from the universe
     — any insertion order, every patch in any of its orientations, any twins policy — and let
     `add` return normally.  With `m` the resulting catalogue and `Cell patches` the cells of the
@@ -286,8 +276,11 @@ theorem C17_catalogue_invariant {nc : ℕ} {S : Obj → Prop}
 
     `nodes(d)`, `higher_nodes` and `boundary()` are in `C17_catalogue_counts`.
 
-    MISSING: rational patches (the weight-sum normalisation of `compute` needs `Σw` invariance
-    under re-indexing to be compatible with sections). -/
+    Entity identity is the model's `≈` throughout (in particular, for rational points it compares the
+    pre-multiplied coordinates only, as the code's vertex key does — finding class
+    `rational-vertex-key-ignores-weight`; and `≈` identifies nets whose weights differ by a global
+    factor — class `compute-normalises-weights-only`).  Not covered: parametric dimension > 3,
+    periodic-basis specifics (none are used by the catalogue), tolerant comparison (exact keys). -/
 theorem C17_catalogue_canonical {nc : ℕ} (P D : ℕ) (frh : Bool) (ktol : ℚ)
     (patches : List Obj) (tw : List ℕ) (sm0 sm : SplineModel)
     (hnew : SplineModel.new P D frh = .ok sm0)
@@ -433,7 +426,8 @@ example : ∃ (patches : List Obj) (sm0 sm : SplineModel), patches ≠ [] ∧
     sm0.add (1 / 10000000000) patches [] = .ok sm := by
   let seg : Obj := ⟨[{ order := 2, knots := #[0, 0, 1, 1], periodic := -1 }], ⟨[2], #[[0, 0], [1, 0]]⟩, false⟩
   have hgu : GU 2 seg := by
-    refine ⟨rfl, ⟨rfl, rfl, by decide, fun i hi => ?_⟩, fun k hk => ?_, by decide⟩
+    refine ⟨⟨rfl, rfl, by decide, fun i hi => ?_⟩, fun k hk => ?_, fun h => by simp [seg] at h,
+      by decide⟩
     · have : i = 0 := by simpa [Obj.pardim, seg] using hi
       subst this; simp [KnotsOK, seg]
     · have hk' : k < 2 := hk
